@@ -154,18 +154,33 @@ def random_matrix(rng, n, kind=None, vmode="float", cplx=False, dominant=False, 
         vf = lambda i, j: gv()
     M = from_pattern(n, pat, vf, cplx)
     if dominant:
-        # make strictly column- and row- diagonally dominant
+        # dominant = True/1: strictly column- and row- diagonally dominant with a positive diagonal;
+        # "row" / "col": dominant in that sense only, rows (columns) rescaled by powers of two so that the diagonal is usually NOT the
+        # largest entry of its column (row), diagonal entries of either sign (complex: any of the four unit phases).  Both kinds of
+        # dominance are inherited by every Schur complement under diagonal pivots, so the diagonal never vanishes.
+        mode = dominant if dominant in ("row", "col") else "both"
         rs = [0.0] * n; cs = [0.0] * n
         for j, col in M.cols():
             for i, v in col:
                 if i != j:
-                    a = abs(complex(*v)) if cplx else abs(v)
+                    a = (abs(v[0]) + abs(v[1])) if cplx else abs(v)      # >= modulus
                     rs[i] += a; cs[j] += a
         for j in range(n):
             for k in range(M.colptr[j], M.colptr[j + 1]):
                 if M.rowind[k] == j:
-                    d = float(math.ceil(max(rs[j], cs[j]) + 1 + rng.random() * 3))
-                    M.vals[k] = (d, 0.0) if cplx else d
+                    base = max(rs[j], cs[j]) if mode == "both" else (rs[j] if mode == "row" else cs[j])
+                    d = float(math.ceil(base + 1 + rng.random() * 3))
+                    if mode == "both":
+                        M.vals[k] = (d, 0.0) if cplx else d
+                    else:
+                        ph = rng.choice([(1, 0), (-1, 0), (0, 1), (0, -1)]) if cplx else (rng.choice([1, -1]), 0)
+                        M.vals[k] = (d * ph[0], d * ph[1]) if cplx else d * ph[0]
+        if mode != "both":
+            sc = [2.0 ** rng.randint(-5, 5) for _ in range(n)]
+            for j in range(n):
+                for k in range(M.colptr[j], M.colptr[j + 1]):
+                    f = sc[M.rowind[k]] if mode == "row" else sc[j]
+                    M.vals[k] = (M.vals[k][0] * f, M.vals[k][1] * f) if cplx else M.vals[k] * f
     M.kind = kind
     return M
 
